@@ -13,8 +13,10 @@ TRUSTED = ["hand-written model lean/Mpir/Model/Obstack.lean of printf/obprntffun
            "alone the number of chunks allocated and freed",
            "glibc's obstack_vprintf (the format slot) appends exactly what vsnprintf would produce for the piece and returns its length; how it asks the obstack "
            "for room is not modelled (no chunk counts are compared when a C-library piece is present)",
-           "harness chunk functions: malloc + fill 0xEE / fill 0xDD + free, so a byte of the object that was never stored, or one read back from a released chunk, "
-           "is visible in the compared bytes; the same stream is replayed on the AddressSanitizer build in every tier (stage `extra` of this part)"]
+           "harness chunk functions (harness/ops_obstack.c): malloc + fill 0xEE / fill 0xDD + free, so a byte of the object that was never stored, or one read back from a "
+           "released chunk, is visible in the compared bytes; in the plain build released chunks are kept until the end of the op and checked (marker !stalewrite: written after "
+           "release; !chunkoob: red zones of 64 bytes around every chunk), in the AddressSanitizer build they are freed at once; the same generators are replayed on the "
+           "AddressSanitizer build in every tier and compared with the model (stage `extra` of this part)"]
 ASSUMPTIONS = ["obstack: counts are natural numbers in the model (the C returns `int`: an object or piece of 2^31 bytes or more is outside the statement, as for the "
                "other members of the family); allocation failure ends in obstack_alloc_failed_handler (abort), not in a return value"]
 RULE = ("obstack: chunk sizes 64, 128, 4096 and glibc's default, with and without an earlier finished object in the first chunk; the same piece repeated until the object "
@@ -92,12 +94,12 @@ def piece_tokens(p): return " ".join([sbytes(p[0]), sbytes(p[1])] + p[2])
 
 def mix_line(rng, chunk, pre, pieces, stats=None):
     assert chunk == 0 or pre <= chunk - HDR
-    if stats is None: stats = int(chunk != 0 and all(p[4] for p in pieces))
+    if stats is None: stats = int(all(p[4] for p in pieces))
     op = rng.choice(["gmp_obstack_mix", "gmp_obstack_vmix"])
     return " ".join([op, hx(chunk), hx(pre), hx(stats), hx(len(pieces))] + [piece_tokens(p) for p in pieces])
 
 def seq_line(rng, chunk, pre, p, reps, stats=None):
-    if stats is None: stats = int(chunk != 0 and p[4])
+    if stats is None: stats = int(bool(p[4]))
     op = rng.choice(["gmp_obstack_seq", "gmp_obstack_vseq"])
     return " ".join([op, piece_tokens(p), hx(reps), hx(chunk), hx(pre), hx(stats)])
 
@@ -206,7 +208,6 @@ def mixed_formats(rng, tier):
 # ---- E: corners
 def corners(rng, tier):
     for chunk in CHUNKS + [0]:
-        st = int(chunk != 0)
         yield seq_line(rng, chunk, 0, ("", "", [], 0, True), 3)                                          # nothing appended: the object is the terminator alone
         yield seq_line(rng, chunk, 0, ("%Zd", "Z", ["0"], 1, True), 1)
         yield seq_line(rng, chunk, 0, ("%*Zd", "iZ", [hx(5000), "7"], 5000, True), 2)                    # one run longer than several chunks
